@@ -108,8 +108,13 @@ def run_cfg(job):
                 data = re.sub(rb'SCHEMA_TARGETS\("[^"]*"', b'SCHEMA_TARGETS("<input>"', data)
                 nd[rel] = common.sha(data)
             dg = nd
-        keep = None
-        return {'rc': rc, 'digest': dg, 'out': out[-300:].decode('latin1')}
+        # second digest with the argument of SetBound1/2 masked: tells 'only a printed bound differs' from any other difference
+        md = {}
+        if tool == 'exp2cxx':
+            for rel in dg:
+                data = open(os.path.join(outdir, rel), 'rb').read()
+                md[rel] = common.sha(re.sub(rb'(SetBound[12]\( )-?\d+( \))', rb'\1N\2', data))
+        return {'rc': rc, 'digest': dg, 'masked': md, 'out': out[-300:].decode('latin1')}
     finally:
         shutil.rmtree(root, ignore_errors=True)
 
@@ -215,9 +220,13 @@ def main():
                 jobs.append((tool, name, text, cfg))
     results = common.pmap(run_cfg, jobs, chunksize=2)
     ref = {}
+    single = {}
     for (tool, name, text, cfg), r in zip(jobs, results):
         if cfg == BASE:
             ref[(tool, name)] = r
+        dev = [k for k in cfg if BASE.get(k) != cfg[k]]
+        if len(dev) == 1:
+            single[(tool, name, dev[0], cfg[dev[0]])] = r
     for (tool, name, text, cfg), r in zip(jobs, results):
         chk.count(states=1, transitions=1)
         chk.cls('%s/%s' % (tool, cfgname(cfg).split('=')[0]))
@@ -234,9 +243,18 @@ def main():
         if diff:
             chk.outcome('output-differs')
             d = first_diff(tool, text, cfg, diff[0]) if (not cfg.get('order') or cfg['order'] == 'first') and cfg['cwd'] == 'plain' and cfg['path'] == 'abs' else 'files: %s' % diff[:3]
-            axis = cfgname(cfg).split(',')[0].split('=')[0]
-            layout = axis in ('aslr', 'shift')
-            chk.violation('%s/output-differs/%s/%s/%s' % (PID, tool, 'layout' if layout else axis, classify_line(d)),
+            dev = sorted(k for k in cfg if BASE.get(k) != cfg[k])
+            axis = dev[0]
+            if len(dev) > 1:
+                # a product configuration: if one of its axes alone gives this very output, the difference belongs to that axis
+                alone = [a for a in dev if single.get((tool, name, a, cfg[a])) is not None and single[(tool, name, a, cfg[a])]['digest'] == r['digest']]
+                axis = alone[0] if alone else '+'.join(dev)
+            layout = axis in ('aslr', 'shift', 'aslr+shift')
+            cl = classify_line(d)
+            if r.get('masked') and r['masked'] == b.get('masked'):
+                # nothing but the number printed by SetBound1/2 differs: an address-dependent value, whichever axis moved the addresses
+                layout, cl = True, 'SetBound2'
+            chk.violation('%s/output-differs/%s/%s/%s' % (PID, tool, 'layout' if layout else axis, cl),
                           '%s on %s: %d file(s) differ between the reference configuration and %s; first: %s: %s' % (tool, name, len(diff), cfgname(cfg), diff[0], d),
                           {'tool': tool, 'name': name, 'cfg': cfg, 'text': text.decode('latin1') if len(text) < 20000 else None, 'path': next((p for n, t, p in schemas if n == name), None)})
         else:
